@@ -20,6 +20,9 @@ type Op struct {
 	// bulk
 	Bulk int          `json:"bulk,omitempty"` // unique bulk number (re-deliveries get their own number)
 	Docs []*model.Doc `json:"docs,omitempty"`
+	// cluster: the bulk also reaches every replica of this shard (1-based; 0 = no), as after a fail-over
+	// of the proxy's client from a partially written shard: documents present on several shards
+	DupShard int `json:"dup_shard,omitempty"`
 
 	// search (+ immediate fetch of the hits)
 	S *Search `json:"s,omitempty"`
